@@ -48,13 +48,13 @@ MODELS = {
     "empty_start": {"species": ["A", "B"], "x0": {"A": 0, "B": 0}, "params": {"k": 1.0},
                     "reactions": [{"type": "massaction", "reactants": ["A"], "products": ["B"], "fields": {"k": "k"}}], "rules": []},
 }
-GRIDS = {"g0": (0.0, 0.125, 24), "g1": (0.0, 0.1, 41), "g2": (0.0, 0.5, 9)}
+GRIDS = {"g0": (0.0, 0.125, 24), "g1": (0.0, 0.1, 41), "g2": (0.0, 0.5, 9), "g3": (0.0, 0.5, 2)}   # g3: the shortest grid that has a step
 VOLS = ["off", "true", "num", "obj", "dividing"]
 
 
 def generate(tier, seed):
     models = ["delays_rules", "exhausting", "empty_start", "volume_rule"] if tier == "quick" else list(MODELS)
-    grids = ["g1"] if tier == "quick" else list(GRIDS)
+    grids = ["g1", "g3"] if tier == "quick" else list(GRIDS)
     cases = []
     for m in models:
         for g in grids:
